@@ -713,6 +713,74 @@ func (h *harness) checkGate(vuln, record cpe.WFN) {
 	}
 }
 
+// checkURIRoundTrip: binding a name to a CPE 2.2 URI as the naming
+// specification prescribes (the package has no URI binder) and unbinding it
+// with UnbindURI gives the name back (an attribute that the URI omits reads
+// as ANY; the four extended attributes stay unset when the edition is not packed).
+func (h *harness) checkURIRoundTrip(w cpe.WFN) {
+	if w.Valid() != nil {
+		return
+	}
+	var comp [cpe.NumAttr]string
+	for i, a := range w.Attr {
+		switch a.Kind {
+		case cpe.ValueUnset, cpe.ValueAny:
+		case cpe.ValueNA:
+			comp[i] = "-"
+		default:
+			t, ok := specTransformForURI(a.V)
+			if !ok || t == "" || strict1(a.V) != nil {
+				h.r.Count("uri-roundtrip:skipped")
+				return
+			}
+			comp[i] = t
+		}
+	}
+	packed := comp[7] != "" || comp[8] != "" || comp[9] != "" || comp[10] != ""
+	ed := comp[5]
+	if packed {
+		ed = "~" + comp[5] + "~" + comp[7] + "~" + comp[8] + "~" + comp[9] + "~" + comp[10]
+	}
+	uri := "cpe:/" + strings.TrimRight(strings.Join([]string{comp[0], comp[1], comp[2], comp[3], comp[4], ed, comp[6]}, ":"), ":")
+	var want cpe.WFN
+	for i, a := range w.Attr {
+		switch {
+		case a.Kind == cpe.ValueSet || a.Kind == cpe.ValueNA:
+			want.Attr[i] = cpe.Value{Kind: a.Kind, V: a.V}
+			if a.Kind == cpe.ValueNA {
+				want.Attr[i].V = ""
+			}
+		case i < 7 || packed:
+			want.Attr[i].Kind = cpe.ValueAny
+		}
+	}
+	out, got, ok := h.opUnbind("unbinduri", uri)
+	h.r.Case("uri-roundtrip "+uri, true)
+	if out == "panic" {
+		return
+	}
+	if !ok || got != want {
+		h.r.Count("uri-roundtrip:differs")
+		h.r.Fail("", fmt.Sprintf("name %q binds (NISTIR 7695 6.1.2) to the URI %q, which UnbindURI reads as ok=%v %#v", w.BindFS(), uri, ok, got))
+		return
+	}
+	if packed {
+		h.r.Count("uri-roundtrip:same-packed")
+	} else {
+		h.r.Count("uri-roundtrip:same")
+	}
+}
+
+// strict1 says whether one value string is an attribute value of the naming
+// specification (body not empty, only punctuation and specials quoted).
+func strict1(v string) error {
+	bound := strings.NewReplacer("\\\\", "\\\\", "\\.", ".", "\\-", "-").Replace(v)
+	if strict, _ := classifyAV(bound); !strict || bound == "*" || bound == "-" {
+		return fmt.Errorf("not strict")
+	}
+	return nil
+}
+
 // ---- known findings: fixed witnesses, replayed on every run ----
 
 func mkName(vals map[int]string) cpe.WFN {
@@ -849,6 +917,7 @@ func Run(cfg hx.Config) error {
 		h.opName("string", w)
 		h.opName("marshal", w)
 		h.checkRoundTrip(w)
+		h.checkURIRoundTrip(w)
 	}
 	// strings into the unbinders
 	for i, n := 0, cfg.N(6000, 150000); i < n && !r.Stop(); i++ {
